@@ -1002,6 +1002,20 @@ class _ILoc:
         return self.get(i % self.n)
 
 
+class _Loc:
+    _folder_stub = True
+
+    def __init__(self, frame):
+        self.frame = frame
+
+    def __getitem__(self, k):
+        if isinstance(k, _Mask):
+            return self.frame[k]
+        if isinstance(k, tuple) and len(k) == 2 and isinstance(k[0], _Mask) and isinstance(k[1], (str, list)):
+            return self.frame[k[0]][k[1]]
+        raise Unknown("label indexing other than by a boolean mask (and columns)")
+
+
 class _Column:
     _folder_stub = True
 
@@ -1025,6 +1039,15 @@ class _Column:
 
     def tolist(self):
         return list(self.values)
+
+    def to_numpy(self):
+        return list(self.values)
+
+    def eq(self, v):
+        return self == v
+
+    def any(self):
+        return any(self.values)
 
     def __iter__(self):
         return iter(self.values)
@@ -1089,8 +1112,29 @@ class _Frame:
         return _ILoc(lambda i: _Row(self.rows[i]), len(self.rows))
 
     @property
+    def loc(self):
+        return _Loc(self)
+
+    @property
     def empty(self):
         return not self.rows
+
+    def iterrows(self):
+        return [(i, _Row(r)) for i, r in enumerate(self.rows)]
+
+    def head(self, n=5):
+        return _Frame([dict(r) for r in self.rows[:n]], self.attrs["format"])
+
+    def reset_index(self, *a, **k):
+        return _Frame([dict(r) for r in self.rows], self.attrs["format"])
+
+    def copy(self, *a):
+        return _Frame([dict(r) for r in self.rows], self.attrs["format"])
+
+    def to_dict(self, orient="dict"):
+        if orient != "records":
+            raise Unknown("to_dict other than records")
+        return [dict(r) for r in self.rows]
 
     def __len__(self):
         return len(self.rows)
